@@ -57,6 +57,7 @@ func buildCorpus(seed uint64) []CorpusItem {
 	full := CfgSpec{Present: true, Funcs: 1<<nFuncs - 1}
 	for _, fp := range []string{
 		`[?(@.a == 1)]`, `[?(@.b)].a`, `[?(@.a > 1)].b`, `a`, `a.b`, `list[0].a`, `['a']`, `["c"][0]`, `[0]`, `[*]`, `*`, `[0,1]`,
+		`$.m[?(@.a == 1)]`, `$.m[?(@.a == '1')]`, `$.m[?(@.a == true)]`, `$.m[?(@.a == 'true')]`, `$.m[?(@.a == null)]`, `$.m[?(@.a == '<nil>')]`, `$.m[?(@.a >= 1)]`, `$.m[?(@.a == "1")]`,
 		`$['k\tv']`, `$[?(@.b == 'k\tv')]`, `$["k\tv"]`, `$[?(@.b == "k\tv")]`, `$['\u0061']`, `$[?(@.b == '\u0061')]`, `$.list[?(@.b == 'x')]`, `$['x']`,
 	} {
 		items = append(items, CorpusItem{Path: fp}, CorpusItem{Path: fp, Cfg: full})
@@ -178,17 +179,45 @@ func probeDocs() []interface{} {
 			"x":    map[string]interface{}{"a": map[string]interface{}{"b": []interface{}{0.0, 1.0}}}},
 		[]interface{}{map[string]interface{}{"a": 1.0, "b": 1.0}, map[string]interface{}{"a": "a", "c": []interface{}{}}, []interface{}{1.0, 2.0, 3.0}, "s", nil},
 		map[string]interface{}{"a": []interface{}{[]interface{}{1.0, 2.0}, []interface{}{3.0}}, "b": map[string]interface{}{"a": true}},
+		map[string]interface{}{"m": []interface{}{map[string]interface{}{"a": 1.0}, map[string]interface{}{"a": "1"}, map[string]interface{}{"a": true}, map[string]interface{}{"a": "true"}, map[string]interface{}{"a": nil}, map[string]interface{}{"a": "<nil>"}, map[string]interface{}{"a": 2.0}}},
 		map[string]interface{}{"k\tv": "tab-member", "ktv": "t-member", "a": map[string]interface{}{"b": "ktv"}, "x": map[string]interface{}{"b": "k\tv"}, "y": map[string]interface{}{"b": "a"}},
 	}
 }
 
+type rawProbeDoc struct {
+	buf *[64]byte
+	txt string
+}
+
+var msgBufs [simrt.MaxTasks + 1][64]byte
+
+var rawProbes = []string{
+	`{"a":1,"b":"x","list":[{"a":1,"b":2}],"c":[1,2]}`,
+	`{"a":2,"b":"y","list":[{"a":2,"b":1}],"c":[2,1]}`,
+	`[{"a":1,"b":1},{"a":"a","c":[]},[1,23],"s",null]`,
+	`[{"a":2,"b":2},{"a":"b","c":[]},[3,21],"t",null]`,
+}
+
 // probe exercises a parsed function on the fixed probe documents with recording callbacks.
-func probe(fn fnType, rec *Recorder) []string {
+func probe(fn fnType, rec *Recorder, path string) []string {
 	var out []string
 	s := recSlot()
 	old := curRec[s]
 	curRec[s] = rec
-	for _, d := range probeDocs() {
+	docs := probeDocs()
+	// one of a few messages of equal length, still undecoded, delivered in the one buffer
+	// this caller reads all its messages into (which message: fixed by the path)
+	buf := &msgBufs[s]
+	docs = append(docs, rawProbeDoc{buf, rawProbes[int(fnv(path)%uint64(len(rawProbes)))]})
+	for _, d := range docs {
+		if r, ok := d.(rawProbeDoc); ok {
+			n := copy(r.buf[:], r.txt)
+			if len(r.txt)%2 == 0 {
+				d = json.RawMessage(r.buf[:n])
+			} else {
+				d = r.buf[:n]
+			}
+		}
 		rec.reset([nFuncs]uint64{})
 		simrt.OpStart()
 		_, o := safeCall(fn, d)
@@ -207,7 +236,7 @@ func execItem(it CorpusItem, cfgs []jsonpath.Config, inject int, rec *Recorder) 
 	fired := simrt.InjectionFired()
 	o := itemOutcome{Parse: out}
 	if fn != nil && simrt.Aborted() == 0 && !fired {
-		o.Probes = probe(fn, rec)
+		o.Probes = probe(fn, rec, it.Path)
 	}
 	return fn, o, fired
 }
@@ -252,9 +281,11 @@ func loadC19(seed uint64, expectFile string) {
 }
 
 // keptConfig is a long-lived Config value that the caller keeps modifying.
+// (the Config lives in a one-element slice that is spread into the variadic parameter, as a
+// caller holding `configs []jsonpath.Config` would do: `Parse(p, configs...)`)
 type keptConfig struct {
-	cfg  jsonpath.Config
-	spec CfgSpec
+	slice []jsonpath.Config
+	spec  CfgSpec
 }
 
 func runC19() *RunResult {
@@ -297,9 +328,9 @@ func runC19() *RunResult {
 				if useKept && it.Cfg.Present {
 					// the same Config value is reused for many calls and modified in between
 					if kept == nil || kept.spec != it.Cfg {
-						kept = &keptConfig{cfg: buildConfig(it.Cfg), spec: it.Cfg}
+						kept = &keptConfig{slice: []jsonpath.Config{buildConfig(it.Cfg)}, spec: it.Cfg}
 					}
-					cfgs = []jsonpath.Config{kept.cfg}
+					cfgs = kept.slice
 					t.probe("config-value-reused")
 				}
 				fn, got, fired := execItem(it, cfgs, inject, &t.rec)
@@ -474,12 +505,12 @@ func runC19() *RunResult {
 						o.Got = "no kept config"
 						return
 					}
-					modifyConfig(&kept.cfg)
+					modifyConfig(&kept.slice[0])
 					kept.spec = CfgSpec{Present: true, Replaced: true}
 					t.probe("config-modified-after-parse")
 					o.Got = fmt.Sprintf("re-probed %d", len(keptFns))
 					for _, kf := range keptFns {
-						pr := probe(kf.fn, &t.rec)
+						pr := probe(kf.fn, &t.rec, c19Corpus[kf.item].Path)
 						if simrt.Aborted() != 0 {
 							return
 						}
@@ -500,7 +531,7 @@ func runC19() *RunResult {
 						if tw <= 0 || c19Expect == nil {
 							continue
 						}
-						_, got, _ := execItem(c19Corpus[tw], []jsonpath.Config{kept.cfg}, 0, &t.rec)
+						_, got, _ := execItem(c19Corpus[tw], kept.slice, 0, &t.rec)
 						if simrt.Aborted() != 0 {
 							return
 						}
